@@ -1,12 +1,25 @@
-import Proofs.BTreeZoneSorted
+import Proofs.BTreeZoneRecord
 /-!
 # C20 — B-tree zone flags, delegation index and bounds are a function of zone content
 
 Theorems of record about the executable model `Model.BTZ` (lean/Model/BTreeZone.lean) of
-`dns/btreezone.py`.  `Variant` carries the decision points at which the unchanged tree violates the property
-(DESIGN §6 D15, D16, D19, D20 and CNAME-at-a-cut): `asShipped` is the code, `intended` the repair.
-The specification (`flagsSpec`, `delegsSpec`, `boundsSpec`, `consistent`) is part of the model file and is a
-function of the node contents only.
+`dns/btreezone.py` (`WritableVersion.put_rdataset / delete_rdataset / delete_node`, `_maybe_cow_with_name` with
+the per-version `changed` set, `update_glue_flag`, `Delegations.get_delegation / is_glue`,
+`ImmutableVersion.bounds`) on a sorted association list keyed by names in the canonical order of
+`Name.fullcompare`.
+
+`Variant` carries the decision points at which the unchanged tree violates the property (DESIGN §6 D15, D16,
+D19, D20 and CNAME-at-a-cut): `asShipped` is the code, `intended` the repair.  The specification
+(`flagsSpec`, `delegsSpec`, `boundsSpec`) is part of the model file and is a function of the node contents only:
+
+* `isDelegSpec n` ⇔ `n` is not the apex, owns NS, and no proper ancestor other than the apex owns NS;
+* `isGlueSpec n` ⇔ some proper ancestor of `n` is a delegation point;
+* `boundsSpec q`: greatest / least non-occluded name at-or-before / after `q`, the longest suffix of `q` at or
+  above a non-occluded name (empty non-terminals count), whether `q` is at or below a delegation point.
+
+Hypotheses used: `WfCfg` (the zone origin is absolute), `TxnWf` / `NoInnerEmpty` (owner names are legal
+`dns.name.Name`s: only the last label may be empty) and `KeyWf` (an NS rdataset has `covers = NONE`).
+`histGuard` / `queryGuard` are decidable (computed by running the model) and identically `true` for `intended`.
 -/
 namespace C20
 open Model Model.BTZ
@@ -23,73 +36,208 @@ def nBA : Name := [[98], [97]]
 def nXA : Name := [[120], [97]]
 def nXBA : Name := [[120], [98], [97]]
 def nC : Name := [[99]]
+def nZZ : Name := [[122, 122]]
 def soa : RdKey := (6, 0)
 def ns : RdKey := (2, 0)
 def a : RdKey := (1, 0)
 def ds : RdKey := (43, 0)
 def cname : RdKey := (5, 0)
+/-- `example.` -/
+def exOrigin : Name := [[101, 120, 97, 109, 112, 108, 101], []]
+/-- absolute spelling `l.example.` of a one-label name -/
+def ab (l : Nat) : Name := [l] :: exOrigin
+/-- `x.a.example.` -/
+def abXA : Name := [120] :: [97] :: exOrigin
 
-/-- flags and index of a committed state agree with the definition -/
+/-- flags and index of a committed state agree with the definition (Boolean form, for `decide`) -/
 def zConsistent (cfg : Cfg) : ZState → Bool
   | some (n, d) => consistent cfg n d
   | none => true
+
+/-- zone used by the bounds examples: absolute, cut `a`, glue `x.a`, and `c` -/
+def hCut : List Txn :=
+  [⟨true, [.put exOrigin soa, .put (ab 97) ns, .put abXA a, .put (ab 99) a], true⟩]
 
 /-! ## iteration order -/
 
 /-- **"names iterate in canonical order"** — after any history of transactions (committed or rolled back,
 replacement or not, failing operations included), in a relativized or absolute zone, for the code as shipped
-and for every repaired variant: the node store is strictly increasing in the canonical order computed by
-`Name.fullcompare`, and so is the delegation index. -/
-theorem iteration_canonical (v : Variant) (cfg : Cfg) (h : List Txn) :
-    match runHist v cfg none h with
+and for every repaired variant, with no hypothesis on names: the node store is strictly increasing in the
+canonical order computed by `Name.fullcompare`, and so is the delegation index. -/
+theorem iteration_canonical (v : Variant) (cfg : Cfg) (init : Bool) (h : List Txn) :
+    match runHist v cfg (initState init) h with
     | none => True
     | some (nodes, delegs) =>
       nodes.Pairwise (fun e f => cmpOrder e.1 f.1 < 0) ∧ delegs.Pairwise (fun x y => cmpOrder x y < 0) := by
-  have := runHist_ZWF (v := v) (cfg := cfg) (z := none) (h := h) trivial
-  cases hr : runHist v cfg none h with
+  have := runHist_ZWF (v := v) (cfg := cfg) (h := h) (ZWF_init init)
+  cases hr : runHist v cfg (initState init) h with
   | none => trivial
   | some p =>
     obtain ⟨nodes, delegs⟩ := p
     rw [hr] at this
     exact ⟨this.1.1, this.2.1⟩
 
-/-- non-vacuity: a history that commits a zone with five names -/
-example : (runHist asShipped cfgRel none
+/-- non-vacuity: a history that commits a zone with five names, loaded out of order -/
+example : (runHist asShipped cfgRel (initState false)
     [⟨true, [.put [] soa, .put nC a, .put nXA a, .put nA ns, .put nBA a], true⟩]).map (fun s => s.1.map (·.1))
     = some [[], nA, nBA, nXA, nC] := by decide
+
+/-! ## flags and delegation index -/
+
+/-- **"after any history of committed transactions (including the initial load, in any record order) the
+derived state is exactly what the documentation defines from the zone content alone: the origin flag on the
+apex, the delegation flag and a delegation-index entry for every non-apex NS owner that is not beneath another
+one, the glue flag on every name strictly beneath such an owner"** — for the code *with the repairs* of D15, D16
+and CNAME-at-a-cut (`intended`), for every history of transactions over legal names (committed, rolled back,
+replacement, failing operations included), relativized or absolute, whatever state a new zone starts in. -/
+theorem flags_eq_spec (cfg : Cfg) (hc : WfCfg cfg) (init : Bool) (h : List Txn) (hw : ∀ t ∈ h, TxnWf t) :
+    FlagsAndIndexRight cfg (runHist intended cfg (initState init) h) :=
+  flagsAndIndexRight_of_good (runHist_good hc (zGood_init cfg init) hw (histGuard_intended cfg _ h))
+
+/-- The same for **any** variant — in particular the code as shipped (`asShipped`), or the code with only some
+of the repairs — under the decidable guard `histGuard`, which for each decision point left as shipped excludes
+exactly its trigger: (D15) a non-NS rdataset written or deleted at a delegation point whose node was not yet
+copied in the current transaction; (D16) a delegation point created or removed above an NS owner; a CNAME-kind
+rdataset written at a delegation point.
+Full statement (false for `asShipped`, see the counter-examples below): the same conclusion without `hg`. -/
+theorem flags_eq_spec_partial (v : Variant) (cfg : Cfg) (hc : WfCfg cfg) (init : Bool) (h : List Txn)
+    (hw : ∀ t ∈ h, TxnWf t) (hg : histGuard v cfg (initState init) h = true) :
+    FlagsAndIndexRight cfg (runHist v cfg (initState init) h) :=
+  flagsAndIndexRight_of_good (runHist_good hc (zGood_init cfg init) hw hg)
+
+/-- **"a delegation-index entry for every non-apex NS owner that is not beneath another one"** (and for nothing
+else): membership form of the index clause, for any variant under its guard (no guard for `intended`, by
+`intended_unguarded`). -/
+theorem index_eq_spec (v : Variant) (cfg : Cfg) (hc : WfCfg cfg) (init : Bool) (h : List Txn)
+    (hw : ∀ t ∈ h, TxnWf t) (hg : histGuard v cfg (initState init) h = true) :
+    match runHist v cfg (initState init) h with
+    | none => True
+    | some (nodes, delegs) =>
+      ∀ n, n ∈ delegs ↔ ∃ nd, (n, nd) ∈ nodes ∧ isDelegSpec cfg nodes n = true := by
+  have := flags_eq_spec_partial v cfg hc init h hw hg
+  cases hr : runHist v cfg (initState init) h with
+  | none => trivial
+  | some p =>
+    obtain ⟨N, D⟩ := p
+    rw [hr] at this
+    simp only [FlagsAndIndexRight] at this ⊢
+    intro n
+    rw [this.2]
+    unfold delegsSpec
+    constructor
+    · intro hn
+      obtain ⟨e, he, rfl⟩ := List.mem_map.mp hn
+      obtain ⟨hm, hd⟩ := List.mem_filter.mp he
+      exact ⟨e.2, hm, hd⟩
+    · rintro ⟨nd, hm, hd⟩
+      exact List.mem_map.mpr ⟨(n, nd), List.mem_filter.mpr ⟨hm, hd⟩, rfl⟩
+
+/-- the repaired variant meets the guard of every history and of every query -/
+theorem intended_unguarded (cfg : Cfg) (z : ZState) (h : List Txn) (q : Name) :
+    histGuard intended cfg z h = true ∧ queryGuard intended cfg q z = true :=
+  ⟨histGuard_intended cfg z h, queryGuard_intended cfg q z⟩
+
+/-- non-vacuity of the guarded theorem for the code as shipped: a three-transaction history with a cut, glue, a
+DS added at the cut *in the transaction that created it*, an NS added beneath the cut and removed again, and
+finally the cut itself removed satisfies every hypothesis. -/
+example : histGuard asShipped cfgRel (initState false)
+    [⟨true, [.put [] soa, .put nA ns, .put nA ds, .put nXA a, .put nC a], true⟩,
+     ⟨false, [.put nXA ns, .delRds nXA ns, .put nC ds], true⟩,
+     ⟨false, [.delRds nA ns, .delName nXA], true⟩] = true := by decide
+example : WfCfg cfgRel ∧ WfCfg cfgAbs := by unfold WfCfg; decide
+example : TxnWf ⟨true, [.put [] soa, .put nA ns, .delRds nXA ns, .delName nC, .delRdata nA a true], true⟩ := by
+  intro op hop
+  simp only [List.mem_cons, List.mem_nil_iff, or_false] at hop
+  rcases hop with rfl | rfl | rfl | rfl | rfl <;> simp [OpWf, NoInnerEmpty, KeyWf, nA, nXA, nC, soa, ns, a] <;> decide
+
+/-! ## bounds -/
+
+/-- **"for every query name the bounds query returns the true nearest predecessor and successor among
+non-occluded names, the true closest encloser (counting empty non-terminals), and whether the name is at or
+below a delegation"** — repaired variant, every history, every legal query name (names outside the zone get
+`KeyError`; a zone without a visible name at or before the query gets the assertion of the code). -/
+theorem bounds_eq_spec (cfg : Cfg) (hc : WfCfg cfg) (init : Bool) (h : List Txn) (hw : ∀ t ∈ h, TxnWf t)
+    (q : Name) (hq : NoInnerEmpty q) :
+    BoundsRight intended cfg q (runHist intended cfg (initState init) h) :=
+  boundsRight_of_good hc (runHist_good hc (zGood_init cfg init) hw (histGuard_intended cfg _ h)) hq
+    (queryGuard_intended cfg q _)
+
+/-- The same for any variant under the guards: the history guard of `flags_eq_spec_partial`, and for the query
+(D19) "the name is at or below a cut, or the greatest node not after it is not glue", (D20) "the closest
+encloser has at least one label" — each only for the decision point left as shipped.
+Full statement (false for `asShipped`, see below): the same conclusion without `hg`, `hgq`. -/
+theorem bounds_eq_spec_partial (v : Variant) (cfg : Cfg) (hc : WfCfg cfg) (init : Bool) (h : List Txn)
+    (hw : ∀ t ∈ h, TxnWf t) (hg : histGuard v cfg (initState init) h = true)
+    (q : Name) (hq : NoInnerEmpty q) (hgq : queryGuard v cfg q (runHist v cfg (initState init) h) = true) :
+    BoundsRight v cfg q (runHist v cfg (initState init) h) :=
+  boundsRight_of_good hc (runHist_good hc (zGood_init cfg init) hw hg) hq hgq
+
+/-- non-vacuity for the code as shipped on `hCut` (absolute zone, cut `a`, glue `x.a`, and `c`): queries at the
+cut, below the cut (an occluded name and a non-existent one), at an existing name, after the last name and at the
+apex all meet the query guard; for `x.a` the answer is: left = the cut, right = `c`, closest encloser = the cut,
+not equal, zonecut bit set. -/
+example :
+    histGuard asShipped cfgAbs (initState true) hCut = true ∧
+    [ab 97, abXA, [121] :: abXA, ab 99, ab 122, exOrigin].all
+      (fun q => queryGuard asShipped cfgAbs q (runHist asShipped cfgAbs (initState true) hCut)) = true ∧
+    (match runHist asShipped cfgAbs (initState true) hCut with
+     | some (n, d) => (bounds asShipped cfgAbs n d abXA).toOption.map
+        (fun b => (b.left, b.right, b.closestEncloser, b.isEqual, b.isDelegation))
+     | none => none) = some (ab 97, some (ab 99), ab 97, false, true) := by decide
 
 /-! ## the defects of the unchanged tree, as kernel-checked counter-examples on the model of the shipped code -/
 
 /-- D15: a DS added at the cut `a` in a later transaction drops its DELEGATION flag. -/
 theorem flags_eq_spec_fails_D15 :
-    zConsistent cfgRel (runHist asShipped cfgRel none
+    zConsistent cfgRel (runHist asShipped cfgRel (initState false)
       [⟨true, [.put [] soa, .put nA ns], true⟩, ⟨false, [.put nA ds], true⟩]) = false := by decide
 
 /-- D16 (load order): the same content loaded inner cut first is inconsistent, outer cut first is consistent. -/
 theorem flags_eq_spec_fails_D16_load_order :
-    zConsistent cfgRel (runHist asShipped cfgRel none [⟨true, [.put [] soa, .put nBA ns, .put nA ns], true⟩]) = false ∧
-    zConsistent cfgRel (runHist asShipped cfgRel none [⟨true, [.put [] soa, .put nA ns, .put nBA ns], true⟩]) = true := by
+    zConsistent cfgRel (runHist asShipped cfgRel (initState false)
+      [⟨true, [.put [] soa, .put nBA ns, .put nA ns], true⟩]) = false ∧
+    zConsistent cfgRel (runHist asShipped cfgRel (initState false)
+      [⟨true, [.put [] soa, .put nA ns, .put nBA ns], true⟩]) = true := by
   decide
 
 /-- D16 (no promotion): deleting the outer NS leaves the inner NS owner unflagged and unindexed. -/
 theorem flags_eq_spec_fails_D16_no_promotion :
-    zConsistent cfgRel (runHist asShipped cfgRel none
+    zConsistent cfgRel (runHist asShipped cfgRel (initState false)
       [⟨true, [.put [] soa, .put nA ns, .put nBA ns, .put nXBA a], true⟩, ⟨false, [.delRds nA ns], true⟩]) = false := by
   decide
 
 /-- CNAME put at a cut: the NS rdataset is dropped by the node, flag, index and glue stay. -/
 theorem flags_eq_spec_fails_cname_at_cut :
-    zConsistent cfgRel (runHist asShipped cfgRel none
+    zConsistent cfgRel (runHist asShipped cfgRel (initState false)
       [⟨true, [.put [] soa, .put nA ns, .put nXA a, .put nA cname], true⟩]) = false := by decide
 
-/-- the repaired variant is consistent on all four witnesses -/
+/-- D19: on `hCut`, `bounds(b)` returns the occluded `x.a` as left neighbour; the specification (and the
+repaired variant) say `a`. -/
+theorem bounds_eq_spec_fails_D19 :
+    (match runHist asShipped cfgAbs (initState false) hCut with
+     | some (n, d) => ((bounds asShipped cfgAbs n d (ab 98)).toOption.map (·.left),
+                       (boundsSpec cfgAbs n (ab 98)).map (·.left),
+                       (bounds intended cfgAbs n d (ab 98)).toOption.map (·.left))
+     | none => (none, none, none)) = (some abXA, some (ab 97), some (ab 97)) := by decide
+
+/-- D20: relativized zone, closest encloser is the apex: `name[-0:]` yields the whole query name `zz` instead
+of the empty name. -/
+theorem bounds_eq_spec_fails_D20 :
+    (match runHist asShipped cfgRel (initState false) [⟨true, [.put [] soa, .put nC a], true⟩] with
+     | some (n, d) => ((bounds asShipped cfgRel n d nZZ).toOption.map (·.closestEncloser),
+                       (boundsSpec cfgRel n nZZ).map (·.closestEncloser),
+                       (bounds intended cfgRel n d nZZ).toOption.map (·.closestEncloser))
+     | none => (none, none, none)) = (some nZZ, some [], some []) := by decide
+
+/-- the repaired variant is consistent on all four flag witnesses -/
 theorem intended_consistent_on_witnesses :
-    zConsistent cfgRel (runHist intended cfgRel none
+    zConsistent cfgRel (runHist intended cfgRel (initState false)
       [⟨true, [.put [] soa, .put nA ns], true⟩, ⟨false, [.put nA ds], true⟩]) = true ∧
-    zConsistent cfgRel (runHist intended cfgRel none [⟨true, [.put [] soa, .put nBA ns, .put nA ns], true⟩]) = true ∧
-    zConsistent cfgRel (runHist intended cfgRel none
+    zConsistent cfgRel (runHist intended cfgRel (initState false)
+      [⟨true, [.put [] soa, .put nBA ns, .put nA ns], true⟩]) = true ∧
+    zConsistent cfgRel (runHist intended cfgRel (initState false)
       [⟨true, [.put [] soa, .put nA ns, .put nBA ns, .put nXBA a], true⟩, ⟨false, [.delRds nA ns], true⟩]) = true ∧
-    zConsistent cfgRel (runHist intended cfgRel none
+    zConsistent cfgRel (runHist intended cfgRel (initState false)
       [⟨true, [.put [] soa, .put nA ns, .put nXA a, .put nA cname], true⟩]) = true := by decide
 
 end C20
